@@ -16,6 +16,7 @@ mod psetbuild;
 mod psetcodec;
 mod psetmerge;
 mod psetview;
+mod psetops;
 mod scalar;
 mod script;
 mod serdes;
@@ -56,6 +57,7 @@ fn main() {
         ("issuance", "json") => issuance::json_contract(rest, &mut out),
         ("checksum", "lfsr") => checksum::lfsr(rest, &mut out),
         ("checksum", "corrupt") => checksum::corrupt(rest, &mut out),
+        ("psetops", "record") => psetops::record(rest, &mut out),
         ("psetview", "locktime") => psetview::locktime(rest, &mut out),
         ("psetview", "history") => psetview::history(rest, &mut out),
         ("psetview", "record") => psetview::record(rest, &mut out),
